@@ -76,6 +76,7 @@ def run(ctx, F):
     ctx.floor("CssDestination fallible method call sites", n_dest, 15)
     push_item_tables(ctx, F)
     sink_rule(ctx, F)
+    arm_effects(ctx, F)
     ctx.explanation = ("F2 error flow over every MIR body of the rsass library: each call returning Result<_, E> (E not a nom parser error) "
                        "is followed to its consumers; `?`/return/transfer propagate, ok()/unwrap_or*/is_err/if-let-without-error/dropped-unread absorb. "
                        "Absorbing sites must be in tables/errflow_reviewed.json (exact key) or known_findings.json. Plus: push_item decision tables drop only "
@@ -172,3 +173,94 @@ def iter_descr(b, t):
     term = sym.strip_transparent(S.operand(b, t["args"][0]))
     s = sym.show(term)
     return s[:60]
+
+
+# ---------------------------------------------------------------------------------------------
+SINK_RX = None
+SKIP_REVIEWED = {
+    "Property": {("<Value>::is_null", "<Value>::evaluate"): "a declaration whose value is null is omitted (Sass semantics)"},
+    "Comment": {("<Format>::is_compressed", "<Scope>::get_format"): "loud comments are dropped in compressed style (which ones: C36)"},
+    "Content": {("<Scope>::get_content",): "@content without a passed block renders nothing"},
+    "Import": {("<Iter<'a, T> as Iterator>::next", "<&'a [T] as IntoIterator>::into_iter"): "no more names in the @import list"},
+    "Each": {("<IntoIter<T, A> as Iterator>::next", "<Vec<T, A> as IntoIterator>::into_iter"): "no more elements"},
+    "For": {("<ValueRange as Iterator>::next", "<I as IntoIterator>::into_iter"): "range exhausted"},
+    "While": {("<Value>::is_true", "<Value>::evaluate"): "condition is falsy"},
+    "None": {},
+}
+
+
+def arm_effects(ctx, F):
+    """Every arm of handle_item produces an effect (output, definition, diagnostic or error) on every
+    success path, except under the reviewed skip conditions: a new value-dependent guard that lets an
+    item pass without effect is a silent drop."""
+    import re
+    from lib import sym, cfgutil
+    prog = F.lib
+    S = sym.Sym(prog, inline_depth=0)
+    b = prog.one("output::transform::handle_item")
+    dom = b.dominators()
+    top = None
+    for bi, blk in enumerate(b.blocks):
+        t = blk["term"]
+        if t["k"] == "switch" and (t.get("of_ty") or "").endswith("sass::item::Item") and len(t["targets"]) > 10:
+            top = t
+            break
+    if top is None:
+        ctx.anchor_lost("handle_item item switch", "not found")
+        return
+    sink_rx = re.compile(r"CssDestination::(push_\w+|start_\w+)$|transform::(handle_body|handle_parsed|handle_css|push_items)$|Scope>::(define\w*|do_use|set_variable)$|VariableDeclaration>::evaluate$|io::_eprint$|io::stdio::_eprint$")
+    err = set(cfgutil.error_exit_blocks(b))
+    for bi, t in b.calls():
+        if t["dest"][0] == 0 and not t["dest"][1]:
+            # `return Err(x).at(pos)` and similar: a call that turns an Err aggregate into the result
+            if any("result::Result::Err" in repr(S.operand(b, a)) for a in t["args"]):
+                err.add(bi)
+    sinks = {bi for bi, t in b.calls() if sink_rx.search(mir.callee_name(t) or "") or sink_rx.search(mir.callee_orig(t) or "")}
+    rets = set(b.return_blocks())
+    pm = b.pred_map()
+    K = set(rets)
+    work = list(rets)
+    while work:
+        x = work.pop()
+        for p in pm[x]:
+            if p in K or p in sinks or p in err:
+                continue
+            K.add(p)
+            work.append(p)
+
+    def essence(x):
+        t = b.blocks[x]["term"]
+        term = S.operand(b, t["discr"])
+        cs = [c for c in sym.calls_in(term) if not c.endswith("Try>::branch") and "Deref" not in c and "clone" not in c]
+        if cs:
+            return tuple(mir.short(c) for c in cs[:2])
+        return ("discr:" + str(t.get("of_ty"))[:60],)
+    n = 0
+    for val, tg, name in top["targets"]:
+        if not name:
+            continue
+        n += 1
+        region = {x for x, ds in dom.items() if tg in ds}
+        if tg not in K:
+            ctx.ok("F3-arm-effect", f"Item::{name}: every success path has an effect", None)
+            continue
+        guards = set()
+        for x in region & K:
+            t = b.blocks[x]["term"]
+            if t["k"] == "switch" and not any(nm in ("Continue", "Break") for _, _, nm in t["targets"]):
+                succ = set(b.successors(x))
+                if any(s2 not in K for s2 in succ):
+                    guards.add(essence(x))
+        allowed = SKIP_REVIEWED.get(name)
+        if allowed is None:
+            ctx.fail("F3-arm-effect", f"Item::{name}|skip", f"the {name} arm of handle_item has a success path without any effect (no output, definition, diagnostic or error); deciding conditions: {sorted(guards)}", where=b.where(tg))
+            continue
+        for g in sorted(guards):
+            key = f"Item::{name}|skip when {' / '.join(g)}"
+            if g in allowed:
+                ctx.reviewed("F3-arm-effect", key, allowed[g])
+            else:
+                ctx.fail("F3-arm-effect", key, f"the {name} arm of handle_item lets an item pass without any effect under a condition that is not in the reviewed set ({' / '.join(g)}): evaluated content can be dropped silently", where=b.where(tg))
+        if not guards:
+            ctx.ok("F3-arm-effect", f"Item::{name}: no effect by design", None)
+    ctx.floor("handle_item arms", n, 25)
